@@ -118,7 +118,7 @@ func histWithClears(r *vk.RNG, a *app.App, lo, hi int) []string {
 
 // C20 — session end restarts cleanly; termination stays blocked
 func C20() *vk.Check {
-	mc := &modelCheck{ID: "C20", Kinds: kinds("cont", "position", "cache", "flags", "terminate-flag", "unexpected-output", "calls", "page-text", "code-events"),
+	mc := &modelCheck{ID: "C20", Kinds: kinds("exec-error", "cont", "position", "cache", "flags", "terminate-flag", "unexpected-output", "calls", "page-text", "code-events"),
 		Drivers: []string{"mem", "fs", "pg"}, PastEnd: true, N: [2]int{3000, 80000},
 		Profile: func(r *vk.RNG) app.Profile {
 			p := specProfile(r)
